@@ -71,6 +71,71 @@ func b32(z *big.Int) []byte {
 	return out
 }
 
+// abscissae of curve points whose ordinate is tiny (y or p-y below 120): the
+// square root comes out of the field code in a non-canonical form for some of them
+var tinyY = []string{
+	"1fe1e5ef3fceb5c135ab7741333ce5a6e80d68167653f6b2b24bcbcfaaaff507",
+	"cbb0deab125754f1fdb2038b0434ed9cb3fb53ab735391129994a535d925f673",
+	"c8b492e17665b9e65e4a124661e1103f1aebfcc849dcd94f7688dcf149f6f4f2",
+	"911a99bd99d05b1707461fe091eb849299ef589b8056db3bab0a84328b24437e",
+	"a95c7e1d4c5db1863b7c6fb26ac231479ff552c18707b69a9ac6bf9c3676f31b",
+	"aa054108a816a0d84cc7cb39cce350a93d831203d67dd7ed2cbd403945db360b",
+	"c2b84dcef67220199a187064a65579cad41a3345bcf6974fe3a153128b81ca10",
+	"a05a4e324093debc5efd9a3c66494f0b47d7c7bc9d041be7e91c9c8ffff01d1a",
+	"38c6df1539ef1082e6d1fd0a5d8226b86f5f34f10fe5ae536b703983014320b0",
+	"323583ef33a8a7dd491f80baf36181edfb87def66a0953f20be0e5368749d783",
+	"db2b0e9f3d35f7defc0362851b21ee6184f2ad044b4a06a08ae634778e583124",
+	"02869c8595b16acb991b94aa2b4da55fb4b495fbc0b0c645449f6ba45c64aed7",
+	"f346d78c225763a603a094a7876f2d1fbe5669a8ff9ee4dbadba044634093494",
+	"0ea5f1e47526f7b6752aae922e0f1785eb35edf08290feb707709e2a2daa8d85",
+	"08a9a8ec60215e7d961f54cd56d5a6fa0fd8a5d2e161017179c15570c4279950",
+	"59fa7093c77bcfa583415295b35d2334cc2bf159d0d3bff2efee4cd4864f2378",
+	"0a8ddcbcfb264d60bd4b7a871ee156ca1058fe0e67b111eb42ba88448fafca49",
+	"707d59587e49b6ea9c70f34235c278c0dac834975ef91d2d372040661aff748a",
+	"15b8631911608efee5727fb3d430ef5685feccde320ef7f23b4523e02a61dd37",
+	"00f72f7246df4ee2569332a47d103d47018c18f5a618be23d500a86ed14638af",
+	"397631a548139bbcddc6b6b307887237496784dc01208758d85c67c9d0df3291",
+	"352ef110ea23a05f37691ef352671af768988f8665eb927069948078dbce7e56",
+	"c0e6d52bdf965e9d995cb0dd8c0b89bec6e0d380ca2d2ed53ac145eaf3dafae7",
+	"fe5821cdcc724819e812c7bf98c694f779e334f272f3af91dc03ddaea0c5f290",
+	"e81285a683ac496061284ac14490b243c4a539b24888b034a81f267e5ba78da5",
+	"3be6c6c0b319b64bc635d0b49ad027ecbee30ac81f0623deadbfdcceae104d8f",
+	"dea65c9e6afe092a7b1a289ea0f8eb3f867cd01c80d0482bc4526a14b68eb6d0",
+	"1aa76e307c0c9518e254e54fe75200506b13ef4aa326177ebffa2d4841f1fc5f",
+	"356351ab25021cfd3c8dc0ecd2554b661c211a28f3153f08caa999f66fca9556",
+	"eeb53615bcc80a7c8eaa542546c688bde10ab564c0e7ecae2e015edd0537ae3e",
+	"d17949fb0a915847628eb63c78317e4875ffca8e194c7f0934bc17f563c92626",
+	"2a7ad1e659965083aa3d34ecc6fb488d71790ab1c99c91a1628bc1b488377500",
+	"04a6345509e0a41a9246fb8cb3cca3fbf70889d88cfe2af7e229b388d32e23b4",
+	"a5886fdf491bec7685daf0e73600915d853280e1c66f38e077bb8f51a4513f0c",
+	"949067d8b4c6bcb5efcfdd9dfc1a78807539bcabb3711531a5d51069344a0376",
+	"5dccc2f265208bc3d2e33bc559f3c6c17a816e7ebd1b487f449c5d2b5c15323d",
+	"b746b3be0f53c61c6c559fbec4b863c501d699749a79ac58e80b77d025831acd",
+	"11075ac78e52c72a784e5faa0433d4569a4b997d15a30322e767c8f33671b7d0",
+	"28205211c01b78f0c09961e821fbfee942cba2a7736262c0a977de0cf7044358",
+	"3eacee8a6e135bbcec2ae6d18cb9d2335e144f4de5635c6e5cc19df81600b727",
+	"a6ccbc878d5e8f7a5211f6eca53b75c65e68be6792858d2377631b33992c8e3c",
+	"cc44854d98484ef4955b4bbadc0cf082109396c29945dc12859c4e58c1cf2edb",
+	"ac7c3f4b956ac2570c2397104e41f19359d3cad5b088a523ccb175989ef02e03",
+	"eeb0b048a4ffd6f934c799368ded449313f8b18bb3849afe4fdd1c37a8a169a2",
+	"f46dd0fb29a812bdea6a4ffcb0043f988c42f2a1f9d780db1ffe31607a53ccdc",
+	"ceec7d5baf4de2dc09db1e66c5bf91636ba467953e5a9057b1f3fe4c502f7237",
+	"29e6f6aa7f4a4ee2acafe145e62bda0d0fab9a882acdb1946023eb1e6fc3d241",
+	"89aee8e035b9a97ab07f9c5f59e99ba7b820166d36a4d61d3fcfccf8e4e7c1c0",
+	"f3715ec4999970ee72d84ef07c2c8c18fdc3169a004fe32d28e060cbaa7b1ddb",
+	"e434139c08d6794c8de6e79341b15eacac54d62b8d9e9c94fe6ea2ee017546e7",
+	"80990715d8e21d88e51dc03b4cd3870a328cada151ba436d063cd1d80fa0940b",
+	"dcdb32a74c9b6c35984c45d18a32b1881b059a70a44a569b6118bda4a74a58e6",
+	"7487a236aac9cbae6ff119fd90d9985328b30a437dc82af48442b4c30dc2c5dd",
+	"a17aaa7ab6f49a808599751702d3a4c626c543bb5a3d5b27b3c815ba6d99791a",
+	"1592e025d0c2f9585916b7e39f46f8f8fd322a42931b36cd632bd92a00efd95a",
+	"48b483feb7ec557fa45ab84f8b386d1156bf6004165cc6721e8a508b570904e3",
+	"f353af4cfc38312a5d059983168b6c240bb7e9228a0a854085bfd4122c2ee4da",
+	"39cfb945565c41255636ab96c88974a96918ab584c28765cb8db064b36b8cb55",
+	"1cadf3655f2a9bf78a15f669e413950d24649a71ba0fa21fd6cabb7456ac9489",
+	"de406e7440b536d25061e5d632a507cec5b98a6867615d221f5dec7a11b617da",
+}
+
 type gen struct {
 	r *Rng
 }
@@ -144,6 +209,9 @@ func (g *gen) pubBytes() ([]byte, string) {
 		b := append([]byte{}, pk...)
 		b[1+g.r.Intn(32)] ^= byte(1 << uint(g.r.Intn(8)))
 		return b, "flip"
+	case 7: // valid point with a tiny y (or p - tiny)
+		x, _ := hex.DecodeString(tinyY[g.r.Intn(len(tinyY))])
+		return append([]byte{byte(2 + g.r.Intn(2))}, x...), "tinyy"
 	case 6: // x just below p
 		return append([]byte{byte(2 + g.r.Intn(2))}, b32(add(bigP, -1-int64(g.r.Intn(40))))...), "xnearp"
 	default:
@@ -443,6 +511,10 @@ func run(args []string) error {
 				sg.r = new(big.Int).Rsh(g.rand256(), uint(127+g.r.Intn(4)))
 				sg.recid |= 2
 				kind = "r<p-n,recid|2"
+			}
+			if g.r.Chance(10) {
+				sg.r, _ = new(big.Int).SetString(tinyY[g.r.Intn(len(tinyY))], 16)
+				kind = "r-tinyy"
 			}
 			m := g.rand256()
 			if g.r.Chance(15) {
